@@ -294,6 +294,9 @@ int main(int argc, char **argv)
               };
               cmp("reported-value-differs-from-integrator", cv->x_reported.real_value, o.x_rep, 1.0);
               cmp("new-position-differs-from-integrator-with-the-long-time-step", cv->x_ext.real_value, ref.cur.x, 1.0);
+              // energies at the time origin of the step: coupling energy, and kinetic energy after half a kick of the LONG step
+              cmp("potential-energy-differs", cv->potential_energy, o.Ep, 1.0);
+              cmp("kinetic-energy-differs-from-half-kick-with-the-long-time-step", cv->kinetic_energy, o.Ek, 1e-3);
               // the coupling force reaches the atoms as an impulse: scaled by the factor at the steps where it is applied
               cmp("atomic-force-is-not-the-spring-impulse", px->fapp[1].x, o.spring_on_atoms * tsf, 1.0);
             }
